@@ -34,6 +34,9 @@ pub enum IppParseError {
     IoError(#[from] io::Error),
 }
 
+// nesting limit for collections, bounds the depth of the resulting value tree
+const MAX_COLLECTION_DEPTH: usize = 16;
+
 // create a single value from one-element list, list otherwise
 fn list_or_value(mut list: Vec<IppValue>) -> IppValue {
     if list.len() == 1 {
@@ -108,6 +111,10 @@ impl ParserState {
                     error!("Invalid begin collection attribute");
                     return Err(IppParseError::InvalidCollection);
                 }
+            }
+            if self.context.len() > MAX_COLLECTION_DEPTH {
+                error!("Collections are nested too deeply");
+                return Err(IppParseError::InvalidCollection);
             }
             self.context.push(vec![]);
         } else if tag == ValueTag::EndCollection as u8 {
